@@ -21,12 +21,19 @@ class ProgramCheck(Check):
         ]
 
     def nbhd_k(self, tier):
-        return 2 if tier == "quick" else 3
+        return 2
 
-    def roots(self):
+    def bases(self, tier):
+        """quick: the base program; thorough: a second base with other feature interactions as well
+        (a third deviation would multiply the neighbourhood by ~100)"""
+        if tier == "quick" or self.base is not U.BASE:
+            return [self.base]
+        return [self.base, U.BASE2]
+
+    def roots(self, base=None):
         out = []
         seen = set()
-        for _l, q in U.single_deviations(self.base):
+        for _l, q in U.single_deviations(base if base is not None else self.base):
             t = render.text(q)
             if t in seen or not U.valid(q, self.natives):
                 continue
@@ -36,20 +43,22 @@ class ProgramCheck(Check):
 
     def shards(self, tier):
         sh = [("pool", r) for r in range(self.pool_shards)]
-        sh += [("nbhd", i) for i in range(-1, len(self.roots()))]
+        for b, base in enumerate(self.bases(tier)):
+            sh += [("nbhd", i, b) for i in range(-1, len(self.roots(base)))]
         return sh
 
     def programs(self, tier, shard):
-        kind, i = shard
+        kind, i = shard[0], shard[1]
         if kind == "pool":
             import itertools
 
             yield from itertools.islice(U.pool(self.specs(tier), self.natives), i, None, self.pool_shards)
         else:
+            base = self.bases(tier)[shard[2]] if len(shard) > 2 else self.base
             if i == -1:
-                yield self.base
+                yield base
                 return
-            root = self.roots()[i]
+            root = self.roots(base)[i]
             yield from U.neighbourhood(root, self.nbhd_k(tier) - 1, self.natives)
 
     def cases(self, tier, shard):
